@@ -1,8 +1,9 @@
+\* default configuration (the family module generates its cfgs from this shape with other constants)
 SPECIFICATION Spec
 CONSTANTS
   Segs = {"a", "value"}
   MaxDepth = 3
-  MaxEntries = 3
+  MaxEntries = 4
   Ids = {1, 2}
 INVARIANT TypeOK
 INVARIANT PrefixClosed
